@@ -1,5 +1,6 @@
 from yowsup.layers import YowProtocolLayer
 from .protocolentities import *
+from yowsup.layers.protocol_iq.protocolentities import ErrorIqProtocolEntity
 import logging
 
 logger = logging.getLogger(__name__)
@@ -12,6 +13,7 @@ class YowContactsIqProtocolLayer(YowProtocolLayer):
             "notification": (self.recvNotification, None)
         }
         super(YowContactsIqProtocolLayer, self).__init__(handleMap)
+        self._pendingSyncIds = set()
 
     def __str__(self):
         return "Contact Iq Layer"
@@ -33,7 +35,11 @@ class YowContactsIqProtocolLayer(YowProtocolLayer):
     def recvIq(self, node):
         if node["type"] == "result" and node.getChild("sync"):
             self.toUpper(ResultSyncIqProtocolEntity.fromProtocolTreeNode(node))
+        elif node["type"] == "error" and node["id"] in self._pendingSyncIds:
+            self._pendingSyncIds.discard(node["id"])
+            self.toUpper(ErrorIqProtocolEntity.fromProtocolTreeNode(node))
 
     def sendIq(self, entity):
         if entity.getXmlns() == "urn:xmpp:whatsapp:sync":
+            self._pendingSyncIds.add(entity.getId())
             self.toLower(entity.toProtocolTreeNode())
